@@ -158,6 +158,30 @@ Theorem C05_forced_command_replaces_request : forall ko co c r,
 Proof. intros ko co c r H. unfold start_under. rewrite H. reflexivity. Qed.
 Print Assumptions C05_forced_command_replaces_request.
 
+(* Client-address restrictions: an authorized_keys entry is matched only when its from="..." option is absent or
+   was CHECKED against the peer address and matched.  When the check cannot be made (the connection has no IP
+   peer address: UNIX socket, tunnel) the entry does not match - the lookup raises and the connection goes down. *)
+Theorem C05_from_checked : forall es k cp ca o,
+  ak_validate es k cp ca = AkSome o ->
+  exists e, In e es /\ ae_opts e = o /\ ae_key e = k /\ ae_ca e = ca /\ (ae_from e = FrAbsent \/ ae_from e = FrOk).
+Proof. exact ak_validate_from. Qed.
+Print Assumptions C05_from_checked.
+
+(* Security keys: a signature by an sk key is accepted only with the user-presence flag, unless touch was
+   waived; for a plain key the waiver is no-touch-required on its authorized_keys entry, for a certificate it
+   takes BOTH the cert-authority entry AND the certificate extension.  (pk_start consults exactly sk_accepts with
+   touch_required_key / touch_required_cert; tied by the correspondence.) *)
+Theorem C05_touch_table : forall w k touch sg,
+  sk_accepts w k touch sg = true -> is_sk w k = true -> touch = true -> sig_up sg = true.
+Proof. exact touch_table. Qed.
+Print Assumptions C05_touch_table.
+
+Theorem C05_touch_waiver : forall o c,
+  (touch_required_key o = false <-> ko_no_touch o = true) /\
+  (touch_required_cert o c = false <-> ko_no_touch o = true /\ co_no_touch c = true).
+Proof. intros o c. split; [apply touch_waiver_key|apply touch_waiver_cert]. Qed.
+Print Assumptions C05_touch_waiver.
+
 (* Keys are never inherited across a user-name switch: whenever packets are being processed, the
    authorized keys in force are the configured ones or the ones the application installed during
    begin_auth for the CURRENT user name (reload_config puts the configured set back before every begin_auth;
@@ -205,7 +229,8 @@ Print Assumptions C05_accepts_password.
 Theorem C05_accepts_publickey : forall w sid fixed ub alg kb sg U es k o,
   blen ub < 1024 -> blen alg < 4294967296 -> blen kb < 4294967296 -> blen sg < 4294967296 ->
   prep w ub = Some U -> zlist_eqb U [] = false -> needs_auth w U = true -> installs w U = true ->
-  ak_of w (Some U) = Some es -> decode w kb = BKey k -> ak_validate es k None false = Some o ->
+  ak_of w (Some U) = Some es -> decode w kb = BKey k -> ak_validate es k None false = AkSome o ->
+  sk_accepts w k (touch_required_key o) sg = true ->
   let head := 50 :: sstr ub ++ sstr S_CONN ++ sstr S_PUBLICKEY ++ [1] ++ sstr alg ++ sstr kb in
   verify w k (sstr sid ++ head) sg = true ->
   let s := drive w sid fixed 12 (step w sid fixed init (Deliver (head ++ sstr sg))) in
